@@ -37,6 +37,9 @@ type Spec struct {
 	Replay func(c *Ctx, u Unit, v Violation)
 	// Setup runs once per process before any unit (open templates, silence logs).
 	Setup func(tier string)
+	// MaxEvalsPerProcess: a worker stops after the unit in which it passed this many executions and
+	// is restarted by the orchestrator for the rest of its batch (0: never). Bounds leaked handles.
+	MaxEvalsPerProcess int
 	// SkipDeterminismCheck disables the replay-twice check at batch start.
 	SkipDeterminismCheck bool
 
@@ -133,6 +136,10 @@ func Main(spec Spec) {
 		}
 		r.UnitsDone = append(r.UnitsDone, i)
 		if len(r.Errors) > 0 {
+			break
+		}
+		if spec.MaxEvalsPerProcess > 0 && r.Evaluations >= int64(spec.MaxEvalsPerProcess) && i+1 < b {
+			r.Notes["recycle"] = true
 			break
 		}
 	}
